@@ -65,15 +65,13 @@ func VerifH_C04_O2a_stringsearch_ascii() {
 	verif.Reach("end")
 }
 
-func vC04CaseFinder(plo, phi, tmax int) {
+func vC04CaseFinder(plo, phi, bmax int) {
 	pn := plo + verif.Choose("plen", phi-plo+1)
 	pattern := vC04ASCIIN("pattern", pn)
-	tn := verif.Choose("tlen", tmax+1)
-	text := vC04ASCIIN("text", tn)
-	// the value sits somewhere in a frame buffer: arbitrary neighbours
-	pre := verif.Bytes("pre", 1)
-	post := verif.Bytes("post", 1)
-	buf := append(append(append([]byte{}, pre...), text...), post...)
+	// a frame buffer: arbitrary bytes.  A string value that the evaluator
+	// matches is a run of ASCII bytes somewhere in it, and then some window
+	// of the buffer equals the pattern up to ASCII case.
+	buf := verif.Bytes("buf", bmax)
 
 	bf := NewBufferFilterForStringCase(pattern)
 	verif.Assert(bf != nil, "ascii-pattern-has-no-filter") // not a soundness matter, but then the harness would be vacuous
@@ -81,8 +79,8 @@ func vC04CaseFinder(plo, phi, tmax int) {
 		return
 	}
 	pass := bf.Eval(nil, buf)
-	// evaluator matches the string value  =>  the buffer passes the filter
-	verif.Assert(!vC04FoldContains(text, pattern) || pass, "casefinder-drops-matching-value")
+	// evaluator matches a string value in the buffer  =>  the buffer passes the filter
+	verif.Assert(!vC04FoldContains(string(buf), pattern) || pass, "casefinder-drops-matching-value")
 	if pass {
 		verif.Reach("pass")
 	} else {
@@ -91,13 +89,22 @@ func vC04CaseFinder(plo, phi, tmax int) {
 	verif.Reach("end")
 }
 
-// verif:desc C04-O2b expr.NewBufferFilterForStringCase(pattern) / stringsearch.NewCaseFinder / CaseFinder.Next (real strings.ToLower, tables built over the symbolic pattern): whenever the evaluator's predicate (ASCII fold-contains, tied to expr.stringSearch by O2a) holds for a string value, every buffer that contains the value's bytes passes BufferFilter.Eval.
-// verif:bounds pattern length 2..3 (shorter patterns get no filter), value length 0..4, both ASCII (bytes symbolic < 0x80); 0..1 arbitrary bytes before and after the value in the buffer
-// verif:outside non-ASCII values (Unicode folding such as U+212A is not examined); longer patterns
+// verif:desc C04-O2b expr.NewBufferFilterForStringCase(pattern) / stringsearch.NewCaseFinder / CaseFinder.Next (real strings.ToLower, tables built over the symbolic pattern): whenever some window of a buffer equals the pattern up to ASCII case -- which is the case when the buffer holds a string value for which the evaluator's predicate holds (tied to expr.stringSearch by O2a) -- the buffer passes BufferFilter.Eval.
+// verif:bounds pattern length 2..3 (shorter patterns get no filter), ASCII (bytes symbolic < 0x80); buffer of 0..3 arbitrary bytes
+// verif:outside non-ASCII values matched through Unicode folding (e.g. U+212A) are not examined; longer patterns and buffers (thorough harness)
 // verif:unwind 32
 // verif:solver z3-new
 func VerifH_C04_O2b_casefinder() {
-	vC04CaseFinder(2, 3, 4)
+	vC04CaseFinder(2, 3, 3)
+}
+
+// verif:desc C04-O2b (thorough bound) as VerifH_C04_O2b_casefinder with buffers of 0..5 bytes
+// verif:bounds pattern length 2..3 ASCII; buffer of 0..5 arbitrary bytes
+// verif:tier thorough
+// verif:unwind 40
+// verif:solver z3-new
+func VerifH_C04_O2b_casefinder_thorough() {
+	vC04CaseFinder(2, 3, 5)
 }
 
 // verif:desc C04-O2c a search pattern containing any byte >= 0x80 gets no case-insensitive buffer filter (CaseFinder folds ASCII only, the evaluator folds Unicode), and a pattern shorter than 2 bytes gets none either.
@@ -125,13 +132,13 @@ func VerifH_C04_O2c_nonascii_refused() {
 // C04-O5 field-name reachability
 // ---------------------------------------------------------------------------
 
-// vC04Name: a field name of 1..2 letters over {a,A,b}.
-func vC04Name(name string) string {
-	n := 1 + verif.Choose(name+".len", 2)
+// vC04Name: a field name of 1..max letters over {a,A,b}.
+func vC04Name(name string, max int) string {
+	n := 1 + verif.Choose(name+".len", max)
 	b := make([]byte, n)
 	for i := range b {
 		c := verif.Byte(name)
-		verif.Assume(c == 'a' || c == 'A' || c == 'b')
+		verif.Assume(vC04Or(c == 'a', vC04Or(c == 'A', c == 'b')))
 		b[i] = c
 	}
 	return string(b)
@@ -210,14 +217,16 @@ func vC04Value(zctx *zed.Context, k int, na, nb string) (zed.Type, zcode.Bytes) 
 	return typ, b.Bytes()
 }
 
-func vC04FieldNames(k int) {
-	na, nb := vC04Name("na"), vC04Name("nb")
+func vC04FieldNames(k int) { vC04FieldNamesN(k, 2, 2) }
+
+func vC04FieldNamesN(k, maxA, maxB int) {
+	na, nb := vC04Name("na", maxA), vC04Name("nb", maxB)
 	// the search term: 2 characters over {a,A,b,.} (a fully qualified name
 	// is "a.b", so a term may straddle the dot)
 	pb := make([]byte, 2)
 	for i := range pb {
 		c := verif.Byte("term")
-		verif.Assume(c == 'a' || c == 'A' || c == 'b' || c == '.')
+		verif.Assume(vC04Or(vC04Or(c == 'a', c == 'A'), vC04Or(c == 'b', c == '.')))
 		pb[i] = c
 	}
 	term := string(pb)
@@ -242,12 +251,21 @@ func vC04FieldNames(k int) {
 	pass := bf.Eval(zctx, buf)
 
 	if match {
-		if k == vC04Flat || k == vC04Nested || k == vC04Named {
+		// region split (rule 7): templates in which the matching record
+		// type is only reachable through a non-record container
+		switch k {
+		case vC04InArray:
+			verif.Assert(pass, "filter-drops-matching-record/record-in-array")
+		case vC04InSet:
+			verif.Assert(pass, "filter-drops-matching-record/record-in-set")
+		case vC04InMap:
+			verif.Assert(pass, "filter-drops-matching-record/record-in-map")
+		case vC04InUnion:
+			verif.Assert(pass, "filter-drops-matching-record/record-in-union")
+		case vC04InError:
+			verif.Assert(pass, "filter-drops-matching-record/record-in-error")
+		default:
 			verif.Assert(pass, "filter-drops-matching-record")
-		} else {
-			// region split (rule 7): the matching record type is only
-			// reachable through a non-record container
-			verif.Assert(pass, "filter-drops-matching-record/record-inside-container")
 		}
 		verif.Reach("match")
 	}
@@ -256,11 +274,50 @@ func vC04FieldNames(k int) {
 	verif.Reach("end")
 }
 
-// verif:desc C04-O5 field-name reachability: for `search <term>` the evaluator expr.searchString.Eval (searchType + FieldNameIter along the real zed.Walk of the value) is compared with the buffer filter kernel.CompileBufferFilter builds for it, or(NewBufferFilterForStringCase(term), NewBufferFilterForFieldName(term)), evaluated by BufferFilter.Eval / FieldNameFinder.Find on a one-value buffer: evaluator true => buffer passes.  Type templates {a:T}, {a:{b:T}}, n={a:{b:T}} (assert id filter-drops-matching-record) and {a:[{b:T}]}, {a:|[{b:T}]|}, {a:|{int64:{b:T}}|}, {a:(int64,{b:T})}, {a:error({b:T})} (assert id .../record-inside-container).
-// verif:bounds field names a,b: 1..2 letters over {a,A,b}; term: 2 characters over {a,A,b,.}; T=int64 (value 1); containers hold one element
-// verif:outside string values (C04-O2), other terms, deeper nesting, several values per buffer (checkedIDs cache)
+// verif:desc C04-O5 field-name reachability: for `search <term>` the evaluator expr.searchString.Eval (searchType + FieldNameIter along the real zed.Walk of the value) is compared with the buffer filter kernel.CompileBufferFilter builds for it, or(NewBufferFilterForStringCase(term), NewBufferFilterForFieldName(term)), evaluated by BufferFilter.Eval / FieldNameFinder.Find on a one-value buffer: evaluator true => buffer passes.  Type templates in which every record is reached through records only: {a:T}, {a:{b:T}}, n={a:{b:T}}.
+// verif:bounds field name a: 1..2 letters over {a,A,b}, b: 1 letter; term: 2 characters over {a,A,b,.}; T=int64 (value 1)
+// verif:outside string values (C04-O2), other terms, deeper nesting, several values per buffer (checkedIDs cache); records inside other containers: see the _array/_set/_map/_union/_error harnesses
 // verif:unwind 48
 // verif:solver z3-new
-func VerifH_C04_O5_fieldnames() {
-	vC04FieldNames(verif.Choose("template", vC04NTemplates))
+func VerifH_C04_O5_fieldnames_records() {
+	vC04FieldNamesN([]int{vC04Flat, vC04Nested, vC04Named}[verif.Choose("template", 3)], 2, 1)
 }
+
+// verif:desc C04-O5 (thorough bound) as VerifH_C04_O5_fieldnames_records with both field names of 1..2 letters
+// verif:bounds field names a,b: 1..2 letters over {a,A,b}; term: 2 characters over {a,A,b,.}
+// verif:tier thorough
+// verif:unwind 48
+// verif:solver z3-new
+func VerifH_C04_O5_fieldnames_records_thorough() {
+	vC04FieldNamesN([]int{vC04Flat, vC04Nested, vC04Named}[verif.Choose("template", 3)], 2, 2)
+}
+
+// verif:desc C04-O5 as VerifH_C04_O5_fieldnames_records for the template {a:[{b:T}]} (one element): the record type {b:T} is visited by the evaluator's Walk; assert id filter-drops-matching-record/record-in-array
+// verif:bounds field names a,b: 1..2 letters over {a,A,b}; term: 2 characters over {a,A,b,.}; T=int64 (value 1); the container holds one element
+// verif:unwind 48
+// verif:solver z3-new
+func VerifH_C04_O5_fieldnames_array() { vC04FieldNames(vC04InArray) }
+
+// verif:desc C04-O5 as _records for the template {a:|[{b:T}]|}; assert id .../record-in-set
+// verif:bounds field names a,b: 1..2 letters over {a,A,b}; term: 2 characters over {a,A,b,.}; T=int64 (value 1); the container holds one element
+// verif:unwind 48
+// verif:solver z3-new
+func VerifH_C04_O5_fieldnames_set() { vC04FieldNames(vC04InSet) }
+
+// verif:desc C04-O5 as _records for the template {a:|{int64:{b:T}}|}; assert id .../record-in-map
+// verif:bounds field names a,b: 1..2 letters over {a,A,b}; term: 2 characters over {a,A,b,.}; T=int64 (value 1); the container holds one element
+// verif:unwind 48
+// verif:solver z3-new
+func VerifH_C04_O5_fieldnames_map() { vC04FieldNames(vC04InMap) }
+
+// verif:desc C04-O5 as _records for the template {a:(int64,{b:T})} holding the record; assert id .../record-in-union
+// verif:bounds field names a,b: 1..2 letters over {a,A,b}; term: 2 characters over {a,A,b,.}; T=int64 (value 1); the container holds one element
+// verif:unwind 48
+// verif:solver z3-new
+func VerifH_C04_O5_fieldnames_union() { vC04FieldNames(vC04InUnion) }
+
+// verif:desc C04-O5 as _records for the template {a:error({b:T})}; assert id .../record-in-error
+// verif:bounds field names a,b: 1..2 letters over {a,A,b}; term: 2 characters over {a,A,b,.}; T=int64 (value 1); the container holds one element
+// verif:unwind 48
+// verif:solver z3-new
+func VerifH_C04_O5_fieldnames_error() { vC04FieldNames(vC04InError) }
